@@ -292,7 +292,16 @@ func inVerifBuf(r *Run, fr *frame, a []Value) Value {
 	hi := r.concreteInt(a[2].(*Term), "verifBuf max")
 	r.nondets = append(r.nondets, NondetInfo{Name: name, Kind: "buf", W: 8, Max: hi})
 	if r.concrete != nil {
-		n := int(r.concrete.Vars[name+"_len"])
+		n := lo // fixed-length buffers have no length variable in the model
+		if lo != hi {
+			n = int(r.concrete.Vars[name+"_len"])
+			if n < lo {
+				n = lo
+			}
+			if n > hi {
+				n = hi
+			}
+		}
 		node := &ArrNode{kind: ArrZero, elemW: 8}
 		cells := r.concrete.Arrays[name]
 		for i := 0; i < n; i++ {
